@@ -6,8 +6,9 @@ import tempfile
 from pathlib import Path
 from typing import Any, Dict, Iterator, List, Optional
 
-from core import Case, Prop, SelfCheckFailure, exc_category, DOCUMENTED
+from core import Case, Prop, SelfCheckFailure, InfraError, exc_category, DOCUMENTED
 
+import spacepackets.seqcount as seqmod
 from spacepackets.seqcount import FileSeqCountProvider, SeqCountProvider
 from spacepackets.ccsds.spacepacket import PacketSeqCtrl, SequenceFlags
 
@@ -44,8 +45,75 @@ class _Bystander:
         self.k += 1
 
 
+# --------------------------------------------------------------------------------------------
+# Case key "hist" (not read by the model ops): the provider of the line is not new - it was created with ANOTHER width, used
+# (through every entry point: get_and_increment(), next(), __next__(), the file-backed one also current() / create_new(), the
+# 14-bit PUS convenience class), and only THEN switched to the width of the line through the documented `max_bit_width`
+# setter (possibly more than once). The property speaks of "the previous value plus one modulo 2^width": from the switch on,
+# the provider counts like a counter of the NEW width that has reached the same value - which is what the model answers
+# for the line (a derived 2^width remembered from before the switch would make it wrap at the old boundary).
+#   seq_mem_run : "hist": {"phases": [[width, calls, via], ...], "at": c}   the provider stands at c (< 2^width of the line)
+#                 when it is switched; the line's n_calls = c + (calls made after the switch); the values reported are those
+#                 of a new provider of the line's width driven c times, followed by the values of the switched provider
+#   seq_file_run: "hist": {"cls": "file" | "pus", "initial": text | null, "phases": [[width, [steps]], ...], "rewrite": bool}
+#                 steps of a phase: call / current / create (create_new()) / restart; afterwards the file holds the count the
+#                 line's `initial` states (checked; with "rewrite" the file is replaced by `initial`, as another process
+#                 that continued the file would have left it), the live instance is switched to the line's width and the
+#                 line's steps run on it
+# Only switches after which the current value fits the new width are generated for the in-memory provider (see the note at
+# C19.assumptions).
+# --------------------------------------------------------------------------------------------
+VIAS = ["get_and_increment", "next", "dunder"]
+
+
+def _call(p, via: str, i: int = 0):
+    """one call through the named entry point ('mixed': all three in turn)"""
+    if via == "mixed":
+        via = VIAS[i % 3]
+    if via == "get_and_increment":
+        return p.get_and_increment()
+    if via == "next":
+        return next(p)
+    if via == "dunder":
+        return p.__next__()
+    raise InfraError(f"malformed line: entry point {via!r}")
+
+
+def _switch(p, w: int):
+    p.max_bit_width = w
+    if int(p.max_bit_width) != w:
+        raise SelfCheckFailure(f"max_bit_width reads {p.max_bit_width!r} after it was set to {w}")
+
+
+def _mem_after_history(a):
+    """(provider switched to the line's width, value it stands at) for a seq_mem_run line with the key "hist" """
+    h, w = a["hist"], a["width"]
+    c = h["at"]
+    if not h["phases"] or c < 0 or c >= (1 << w) or c > a["n_calls"]:
+        raise InfraError("malformed line: the history does not end at a value that fits the width of the line")
+    p = None
+    for wk, k, via in h["phases"]:
+        if p is None:
+            p = SeqCountProvider(wk)
+        else:
+            _switch(p, wk)
+        for i in range(k):
+            _call(p, via, i)
+    _switch(p, w)
+    return p, c
+
+
 def op_seq_mem_run(a):
     w, n = a["width"], a["n_calls"]
+    if a.get("hist"):
+        p, c = _mem_after_history(a)
+        ref = SeqCountProvider(w)
+        vals = [int(ref.get_and_increment()) for _ in range(c)]
+        vals += [int(_call(p, "mixed", i)) for i in range(n - c)]
+        if w <= 14:
+            for v in vals[c:c + 600]:
+                _acceptable(v)
+        return {"values": vals}
     wb = 3 if w != 3 else 2
     other = _Bystander(SeqCountProvider(wb), wb, "a second SeqCountProvider") if n % 2 else None
     p = SeqCountProvider(w)
@@ -97,12 +165,60 @@ class _Dir:
         return False
 
 
+def _file_after_history(a, path: Path):
+    """the live instance of a seq_file_run line with the key "hist": created and used with other widths, the file holding
+    the line's `initial`, then switched to the line's width"""
+    h, w = a["hist"], a["width"]
+    if not h["phases"] or not isinstance(a["initial"], str):
+        raise InfraError("malformed line: a history needs phases and the file content it ends with")
+    if h["initial"] is not None:
+        path.write_bytes(h["initial"].encode("ascii"))
+    prov = None
+    i = 0
+    for wk, steps in h["phases"]:
+        if prov is None:
+            if h["cls"] == "pus":
+                if wk != 14:
+                    raise InfraError("malformed line: the PUS provider has 14 bits")
+                prov = seqmod.PusFileSeqCountProvider(path)
+            else:
+                prov = FileSeqCountProvider(wk, path)
+        else:
+            _switch(prov, wk)
+        for st in steps:
+            i += 1
+            if st == "call":
+                _call(prov, "mixed", i)
+            elif st == "current":
+                prov.current()
+            elif st == "create":
+                prov.create_new()
+            elif st == "restart":
+                prov = FileSeqCountProvider(wk, path)
+            else:
+                raise InfraError(f"malformed line: history step {st!r}")
+    w_last = h["phases"][-1][0]
+    if h.get("rewrite"):
+        path.write_bytes(a["initial"].encode("ascii"))
+    else:
+        want = a["initial"].strip()
+        got = _peek(w_last, path)
+        if not want.isdigit() or got != int(want):
+            raise SelfCheckFailure(f"after the history {h['phases']} (file at the start: {h['initial']!r}) a new instance of width "
+                                   f"{w_last} reads {got!r} from the file; counting from 0 modulo 2^width gives {want}")
+    _switch(prov, w)
+    return prov
+
+
 def op_seq_file_run(a):
     w = a["width"]
     with _Dir() as path:
-        if a["initial"] is not None:
-            path.write_bytes(a["initial"].encode("ascii"))
-        prov = FileSeqCountProvider(w, path)
+        if a.get("hist"):
+            prov = _file_after_history(a, path)
+        else:
+            if a["initial"] is not None:
+                path.write_bytes(a["initial"].encode("ascii"))
+            prov = FileSeqCountProvider(w, path)
         wb = 2 if w != 2 else 3
         other = _Bystander(FileSeqCountProvider(wb, path.with_name("other-" + FILE_NAME)), wb, "a second FileSeqCountProvider on another file")
         results: List[Any] = []
@@ -224,7 +340,14 @@ class C19(Prop):
         "POSIX text mode: os.linesep is '\\n' and the default encoding maps ASCII octets to the same characters",
         "the first line is shorter than CPython's integer string conversion limit (4300 digits) and width < 14000",
         "the file is not touched by anyone else between two operations; crash points inside a call are outside the statement",
-        "the width is a non-negative integer that stays the same for the whole history (the max_bit_width setter is not exercised)",
+        "the width is a non-negative integer; when it is changed through the documented max_bit_width setter in the middle of a "
+        "history (case key 'hist'), the provider is compared from there on with the model of a counter of the new width that "
+        "stands at the same value. For the in-memory provider only switches after which the current value fits the new width "
+        "are generated: on the unchanged tree SeqCountProvider(3), five calls, max_bit_width = 2 makes the next call return 5 "
+        "(outside [0, 3]; then 2, 3, 0, ...), and SeqCountProvider(16) after 20000 calls switched to 14 bits returns 20000, which "
+        "PacketSeqCtrl refuses - the statement's 'every returned value lies in [0, 2^width - 1]' read with the width in force at "
+        "the call does not hold there; the file-backed provider refuses such a stored value with ValueError on every call "
+        "until create_new(), like the model of the new width does (those lines are generated)",
     ]
 
     def impl_ops(self):
@@ -315,6 +438,8 @@ class C19(Prop):
                 ch = chr(c)
                 for text in (ch, "5" + ch, ch + "5", "5" + ch + "6", "5" + ch + "\n", ch + "\n5"):
                     yield once(w, text, "call", "any", "ascii-sweep")
+        # --- the width is changed through the setter AFTER the provider has been used (key "hist") -------
+        yield from (c for c in self.gen_width_switch(rng, thorough) if c is not None)
         # --- random ASCII contents -------------------------------------------------------------
         for _ in range(30000 if thorough else 2500):
             w = rng.choice(WIDTHS)
@@ -323,6 +448,131 @@ class C19(Prop):
             if rng.random() < 0.2:
                 yield Case({"op": "seq_file_run", "width": w, "initial": text, "steps": mixed_steps(rng, 6, 0.05)}, "valid",
                            tag="content-random-run", keys=RUN_KEYS)
+
+    # ------------------------------------------------------------------------------------------
+    def gen_width_switch(self, rng: random.Random, thorough: bool) -> Iterator[Case]:
+        def mem(phases, w_new, n_after, tag):
+            """in-memory provider: phases = [[width, calls, via], ...]; None if a switch would leave the value out of range"""
+            v = 0
+            for wk, k, _via in phases:
+                if v >= (1 << wk):
+                    return None
+                v = (v + k) % (1 << wk)
+            if v >= (1 << w_new):
+                return None
+            return Case({"op": "seq_mem_run", "width": w_new, "n_calls": v + n_after,
+                         "hist": {"phases": [list(ph) for ph in phases], "at": v}}, "valid", tag=tag)
+
+        def span(w_old, w_new):
+            """calls after the switch that cross the old and the new boundary at least once, whatever the start"""
+            return 2 * max(1 << w_old, 1 << w_new) + 3
+
+        small = [1, 2, 3, 4, 5, 8]
+        for w_old in small:
+            for w_new in small:
+                if w_new == w_old:
+                    continue
+                top = 1 << w_old
+                ks = {0, 1, 2, top - 1, top, top + 1, rng.randint(1, 2 * top + 3)}
+                if w_new < w_old:
+                    ks |= {(1 << w_new) - 1, top + (1 << w_new) - 1}
+                for i, k in enumerate(sorted(ks)):
+                    c = mem([[w_old, k, (VIAS + ["mixed"])[(i + w_old + w_new) % 4]]], w_new, span(w_old, w_new),
+                            f"switch-mem-{'wider' if w_new > w_old else 'narrower'}")
+                    if c is not None:
+                        yield c
+        # the 14-bit packet sequence count widened to 16 bits and back, across both boundaries
+        for k in (1, 16383, 16384 + 5):
+            yield mem([[14, k, "mixed"]], 16, 10 if k != 16384 + 5 else (1 << 16) + 6, "switch-mem-14-16")
+        yield mem([[16, 3, "next"]], 14, (1 << 14) + 6, "switch-mem-16-14")
+        yield mem([[16, (1 << 16) + 16380, "get_and_increment"]], 14, 10, "switch-mem-16-14")
+        # several switches in a row
+        made = 0
+        while made < (200 if thorough else 30):
+            phases = [[rng.choice(small), rng.randint(0, 40), rng.choice(VIAS + ["mixed"])] for _ in range(rng.randint(2, 4))]
+            w_new = rng.choice(small)
+            c = mem(phases, w_new, span(max(p[0] for p in phases), w_new), "switch-mem-chain")
+            if c is not None and w_new != phases[-1][0]:
+                made += 1
+                yield c
+
+        # ---- file-backed provider ---------------------------------------------------------------
+        def advance(v, wk, steps):
+            for st in steps:
+                if st == "call":
+                    v = 0 if v >= (1 << wk) - 1 else v + 1
+                elif st == "create":
+                    v = 0
+            return v
+
+        def file(phases, w_new, steps, tag, cls="file", initial0=None, rewrite=None):
+            """phases = [[width, [steps]], ...]; None if a phase would start with a stored value outside its width"""
+            v = 0 if initial0 is None else int(initial0)
+            for wk, sts in phases:
+                if v >= (1 << wk):
+                    return None
+                v = advance(v, wk, sts)
+            hist = {"cls": cls, "initial": None if initial0 is None else f"{initial0}\n", "phases": [[wk, list(sts)] for wk, sts in phases],
+                    "rewrite": rewrite is not None}
+            return Case({"op": "seq_file_run", "width": w_new, "initial": rewrite if rewrite is not None else f"{v}\n",
+                         "steps": steps, "hist": hist}, "valid", tag=tag, keys=RUN_KEYS)
+
+        def used(rng, k):
+            """k uses of the live instance through every entry point (calls and current()), ending with a use"""
+            if k == 0:
+                return []
+            sts = [rng.choice(["call", "call", "call", "current"]) for _ in range(k - 1)]
+            return sts + [rng.choice(["call", "current"])]
+
+        fsmall = [1, 2, 3, 4] if not thorough else [1, 2, 3, 4, 5, 6]
+        for w_old in fsmall:
+            for w_new in fsmall + [fsmall[-1] + 1]:
+                if w_new == w_old:
+                    continue
+                top = 1 << w_old
+                n = (1 << w_new) + top + 3 if w_new > w_old else 2 * (1 << w_new) + 3      # (across the old and the new boundary)
+                tag = f"switch-file-{'wider' if w_new > w_old else 'narrower'}"
+                for k in sorted({1, top - 1, rng.randint(1, 2 * top)} | ({top + 1} if thorough else set())):
+                    pre = ["call"] * k if k != top - 1 else used(rng, k)
+                    c = file([[w_old, pre]], w_new, calls(n, False) if k % 2 else mixed_steps(rng, n), tag)
+                    if c is not None:
+                        yield c
+                # used through current() only; width set before the first use; create_new() in between; a new instance
+                entries = (["current"], [], ["call", "call", "create", "call"], ["call", "restart", "current"])
+                for pre in (entries if thorough else (entries[0], entries[1 + (w_old + w_new) % 3])):
+                    c = file([[w_old, pre]], w_new, calls(min(n, 2 * top + 4 if w_new > w_old else (2 << w_new) + 4), False), tag + "-entry")
+                    if c is not None:
+                        yield c
+                # the current value does not fit the narrower width: refused with ValueError from then on, like the model
+                if w_new < w_old:
+                    yield file([[w_old, ["call"] * (1 << w_new)]], w_new, ["call", "current", "call", "restart", "call"], "switch-file-narrower-stuck")
+                # another process continued the file in the meantime: any count that is valid for the new width
+                texts = (f"{top}\n", f"{(1 << w_new) - 2}\n", f"{(1 << w_new) - 1}", f"{min(top, (1 << w_new) - 1)} \r\n9\n")
+                for text in (texts if thorough else (texts[0], texts[1 + (w_old + w_new) % 3])):
+                    yield file([[w_old, used(rng, rng.randint(1, 3))]], w_new, calls(6, False) + ["current"], tag + "-rewritten", rewrite=text)
+        # the PUS convenience class (14 bits) widened to 16 bits / narrowed, near the boundaries
+        pus = "pus"
+        yield file([[14, ["call", "call", "current"]]], 16, calls(8, False), "switch-file-pus", cls=pus, initial0=16380)
+        yield file([[14, ["call"]]], 16, ["call", "current", "call", "restart", "call"], "switch-file-pus", cls=pus, rewrite="20000\n")
+        yield file([[14, ["current"]]], 16, calls(6, False), "switch-file-pus", cls=pus, rewrite="65533\n")
+        yield file([[14, ["call", "call"]]], 3, calls(20, False), "switch-file-pus", cls=pus)
+        yield file([[14, ["call"] * 3]], 3, calls(12, False), "switch-file-pus", cls=pus, initial0=16382)
+        yield file([[14, ["call"] * 9]], 3, calls(4, False) + ["current"], "switch-file-pus", cls=pus)
+        for w_old, start in ((14, 16381), (16, 65533), (8, 254)):
+            for w_new in (8, 14, 16):
+                if w_new != w_old:
+                    c = file([[w_old, used(rng, 4)]], w_new, calls(8, False), "switch-file-near-max", initial0=start)
+                    if c is not None:
+                        yield c
+        # several switches in a row
+        made = 0
+        while made < (150 if thorough else 15):
+            phases = [[rng.choice(fsmall), used(rng, rng.randint(0, 12))] for _ in range(rng.randint(2, 3))]
+            w_new = rng.choice(fsmall + [fsmall[-1] + 1])
+            c = file(phases, w_new, mixed_steps(rng, 30), "switch-file-chain")
+            if c is not None and w_new != phases[-1][0]:
+                made += 1
+                yield c
 
 
 PROP = C19()
